@@ -4,6 +4,8 @@
 -/
 import SymfcModel.Model.Inst
 import SymfcModel.Model.Tables
+import SymfcModel.Lemmas.Batch
+import SymfcModel.Lemmas.Chunk
 namespace Symfc.C11
 open Symfc
 
@@ -16,5 +18,44 @@ theorem fast_and_reference_tables_agree :
     Gen.projTablesO3 = Gen.stagesO3.map (·.perms) ∧ Gen.projGroupsO3 = Gen.stagesO3.map (·.nPermsGroup) ∧
     Gen.projTablesO4 = (Gen.stagesO4.drop 1).map (·.perms) ∧
     Gen.projTablesO2 = (Gen.stagesO2.drop 1).map (·.perms) := by decide
+
+/-- C11.a: `get_batch_slice(n, b)` with ANY batch size b ≥ 1 tiles [0, n) by consecutive non-empty intervals of
+    length ≤ b, in order (b = 0 is Python's `ValueError`, modelled as `none`). -/
+theorem batch_slices_tile_the_range (n b : Nat) (hb : 0 < b) :
+    ∃ sl, batchSlice n b = some sl ∧
+      sl.flatMap (fun p => List.range' p.1 (p.2 - p.1)) = List.range n ∧
+      (∀ p ∈ sl, p.1 < p.2 ∧ p.2 - p.1 ≤ b ∧ p.2 ≤ n) ∧ sl.length = (n + b - 1) / b := by
+  obtain ⟨sl, h⟩ := batchSlice_isSome (n := n) hb
+  exact ⟨sl, h, batchSlice_partition hb h, batchSlice_mem hb h, batchSlice_length hb h⟩
+
+theorem zero_batch_size_is_an_error (n : Nat) : batchSlice n 0 = none := batchSlice_zero n
+
+/-- C11.b: any quantity accumulated batch by batch (Gram matrices `XᵀX`, `Xᵀy`, sum-rule Gram sums, …: any
+    associative accumulation with unit) is the same for EVERY two batch sizes — it equals the unbatched total. -/
+theorem batched_accumulation_independent_of_batch_size {β} (add : β → β → β) (zero : β)
+    (hassoc : ∀ a b c, add (add a b) c = add a (add b c)) (hzero : ∀ a, add zero a = a) (hzero' : ∀ a, add a zero = a)
+    (f : Nat → β) (n b₁ b₂ : Nat) (h₁ : 0 < b₁) (h₂ : 0 < b₂) (sl₁ sl₂ : List (Nat × Nat))
+    (e₁ : batchSlice n b₁ = some sl₁) (e₂ : batchSlice n b₂ = some sl₂) :
+    (sl₁.map (fun p => ((List.range' p.1 (p.2 - p.1)).map f).foldl add zero)).foldl add zero =
+    (sl₂.map (fun p => ((List.range' p.1 (p.2 - p.1)).map f).foldl add zero)).foldl add zero := by
+  rw [batchSlice_foldl h₁ e₁ add zero hassoc hzero hzero' f, batchSlice_foldl h₂ e₂ add zero hassoc hzero hzero' f]
+
+/-- C11.a: the batch sizes computed by the code are ≥ 1 on their domain: solvers use `N // min(N, k)`; the sum-rule
+    projector uses `N^(n-1) · (N // n_batch)` with `1 ≤ n_batch ≤ N`, which moreover is a multiple of N -/
+theorem code_batch_sizes_are_positive (N k nb p : Nat) (hN : 1 ≤ N) (hk : 1 ≤ k) (h1 : 1 ≤ nb) (h2 : nb ≤ N) (hp : 1 ≤ p) :
+    1 ≤ N / min N k ∧ 0 < N ^ p * (N / nb) ∧ N ∣ N ^ p * (N / nb) :=
+  ⟨batch_div_min_pos hN hk, batch_pow_pos h1 h2, batch_pow_dvd hp⟩
+
+/-- C11.b: the chunked accumulation of the coset projector (`cosets[i % n_cosets] += mat; sum(cosets)`) gives the
+    same total for every number of chunks ≥ 1 -/
+theorem coset_chunk_count_is_irrelevant {α} (add : α → α → α) (zero : α)
+    (hassoc : ∀ a b c, add (add a b) c = add a (add b c)) (hcomm : ∀ a b, add a b = add b a)
+    (hzero : ∀ a, add zero a = a) (n₁ n₂ : Nat) (h₁ : 1 ≤ n₁) (h₂ : 1 ≤ n₂) (mats : List α) :
+    chunkedSum add zero n₁ mats = chunkedSum add zero n₂ mats :=
+  chunkedSum_indep add zero hassoc hcomm hzero n₁ n₂ h₁ h₂ mats
+
+/-- record of the current source: the FC3 reshape guards against a zero batch size, the FC2/FC4 reshapes do not
+    (FC4: fewer than 36 stored entries ⇒ `ValueError`, a crash, never a wrong value) -/
+theorem reshape_zero_batch_guards : Gen.chainZeroBatchGuarded = [(2, false), (3, true), (4, false)] := by decide
 
 end Symfc.C11
